@@ -231,7 +231,9 @@ CLAIMED.update({
              "(Model/TupleAssign: whenever the translator's guard accepts the targets, evaluating each target in its turn yields the heap of Go's "
              "evaluate-all-operands-first semantics, for every environment, heap and aliasing; three rejected shapes on which they differ) and for "
              "conversions (Model/Conv: every conversion Go allows over predeclared and defined types is rejected or emitted as an operation that "
-             "computes Go's result, outside the explicit known class of defined integer targets of another width). The inventory of "
+             "computes Go's result, outside the explicit known class of defined integer targets of another width) and for package-level variables "
+             "(Model/Global: a global whose type holds no reference is observed by every sequence of reads/stores/loads exactly as in Go although "
+             "its definition is evaluated at every use; with a reference it is not, and the guard looks inside structs and arrays). The inventory of "
              "the translator's 120 guard calls (function, reporter, message) is regenerated on every run and must equal the committed one (rfl). "
              "Tied to the code by that inventory, by the structural correspondence on random skeletons (which are rejected, and why), and by a "
              "catalogue of ~95 out-of-subset constructs x 9 positions, 12 control-flow shapes, 25 declaration forms, 18 look-alike packages and a "
